@@ -85,7 +85,7 @@ check(
 )
 check(
     "C10", "fault_enumeration",
-    "Fault injection with a differential oracle: generated projects (3-6 trigger files, 1-3 codemods, detector-less / real-semgrep / SAST pipelines) x fault kind (invalid UTF-8, NUL, syntax error, empty file, file vanishing between listing and reading, parser raising for the victim, transformer raising at the j-th visited node) x victim position x worker count; invalid bytes are appended as a comment or placed inside string literals at the start of every statement (left of the detector's match), SAST victims carry 1-2 findings with ids of their own, and a deterministic grid pipeline kind x fault kind is covered in every run besides the random plans. The run with the fault is compared with the fault-free run of the same project: every other file must end with the same bytes and changesets; the victim is unchanged, has no changeset from a codemod that failed on it, is listed as failed by the codemods that selected it, every one of its SAST findings is reported unfixed (by id for DefectDojo); exit 0; report schema-valid. The thorough tier enumerates every visited-node index j of the victim exhaustively for sampled plans.",
+    "Fault injection with a differential oracle: generated projects (3-6 trigger files, 1-3 codemods, detector-less / real-semgrep / SAST pipelines) x fault kind (invalid UTF-8, NUL, syntax error, empty file, file vanishing between listing and reading, parser raising for the victim, transformer raising at the j-th visited node) x victim position x worker count; invalid bytes are appended as a comment or placed inside string literals at the start of every statement (left of the detector's match), SAST victims carry 1-2 findings with ids of their own, and a deterministic grid pipeline kind x fault kind is covered in every run besides the random plans. The run with the fault is compared with the fault-free run of the same project: every other file must end with the same bytes and changesets; the victim is unchanged, has no changeset from a codemod that failed on it, is listed as failed by the codemods that selected it, every one of its SAST findings is reported unfixed (by id for DefectDojo); exit 0; report schema-valid. The only shipped two-transformer pipeline (DefectDojo avoid-insecure-deserialization) gets a plan of its own whose victim holds a site of each transformer, with the transformer fault injected at points spread over all visited nodes (24 in quick, every node in thorough). The thorough tier also enumerates every visited-node index j of the victim exhaustively for sampled plans.",
     "Trusted: seams at libcst.parse_module / MatcherDecoratableTransformer.on_visit / pathlib.Path.read_bytes applied in the forked child (no repository hooks); the fault-free run as reference; faults are exceptions and bad bytes, not process kills.",
     "fault injection at library seams + differential vs. fault-free run (Hypothesis-drawn plans; exhaustive j enumeration in thorough)",
     "DESIGN.md §3 C10",
@@ -106,7 +106,7 @@ check(
 )
 check(
     "C06", "exploration",
-    "Metamorphic generated search grounded in the repository's own SAST fixtures (input + tool document harvested from each of the 37 SAST codemods' unit tests; locations are shifted and replicated, never invented): 1-4 copies of a fixture in def/method/nested/if/... contexts with tab/CRLF/prepended-line layouts; a calibration run reports every site; then subsets of the findings (all 2^n subsets for n <= 3 in the thorough tier) and decoys (foreign rule at the same location, same rule for another file, RESOLVED/REVIEWED/FIXED/CLOSED copies of the findings of an *unreported* site in the issues or hotspots list, foreign-tool SARIF run, empty document) are reported, in one result file or spread over two files of the same tool. Sites in the subset must end up exactly as in the calibration run, all other text must be unchanged, decoys and the empty document produce no change and no changeset, every rewritten site has a change entry carrying a finding of its rule (and id for DefectDojo), no entry carries an unreported rule or id.",
+    "Metamorphic generated search grounded in the repository's own SAST fixtures (input + tool document harvested from each of the 37 SAST codemods' unit tests; locations are shifted and replicated, never invented): 1-4 copies of a fixture in def/method/nested/if/... contexts with tab/CRLF/prepended-line layouts; a calibration run reports every site; then subsets of the findings (all 2^n subsets for n <= 3 in the thorough tier) and decoys (foreign rule at the same location, same rule for another file, RESOLVED/REVIEWED/FIXED/CLOSED copies of the findings of an *unreported* site in the issues or hotspots list, foreign-tool SARIF run, empty document) are reported, in one result file or spread over two files of the same tool, with and without --verbose, Sonar components bare or prefixed with a project key that may itself contain colons. Sites in the subset must end up exactly as in the calibration run, all other text must be unchanged, decoys and the empty document produce no change and no changeset, every rewritten site has a change entry carrying a finding of its rule (and id for DefectDojo), no entry carries an unreported rule or id.",
     "Trusted: the calibration run as the definition of 'equally vulnerable site' (copies not acted on there are dropped and counted); fixtures as ground truth for each tool's location convention; finding identity by rule (by id for DefectDojo).",
     "Hypothesis property-based metamorphic testing over harvested tool fixtures (subset/decoy relations vs. full-report run)",
     "DESIGN.md §3 C06",
